@@ -29,6 +29,9 @@ def warm():
 
 def _child(argv, home, stdout_path, pre_hook, cwd):
     iso = warm()
+    # the child may be forked from a daemonic harness worker; IsoQuant must be able to start its own process pool
+    import multiprocessing
+    multiprocessing.current_process()._config.pop("daemon", None)
     os.environ["HOME"] = home
     if cwd:
         os.chdir(cwd)
